@@ -27,6 +27,7 @@ func c17Opts(rng *vlib.Rng) idl.GenOpts {
 	o.ExpDoubles = true
 	o.CppIncludes = true
 	o.ExtraNS = true
+	o.DupNS = true
 	o.HardLiterals = true
 	o.GoEscapes = false
 	o.NameStress = 1
